@@ -147,9 +147,9 @@ def parseNat (s : Str) : Nat := Nat.ofDigitChars 10 s 0
 /-- a decimal literal `[-+]?D+.D+` whose text is assumed to be `repr(float(text))` (generator invariant, checked there) -/
 def isFloatText (s : Str) : Bool :=
   let body := if s.head? == some '-' || s.head? == some '+' then s.drop 1 else s
-  match split1 body '.' with
-  | [a, b] => isdecimal a && isdecimal b
-  | _ => false
+  let a := body.takeWhile isAsciiDigit
+  let rest := body.drop a.length
+  !a.isEmpty && rest.head? == some '.' && !(rest.drop 1).isEmpty && (rest.drop 1).all isAsciiDigit
 
 def floatCanon (s : Str) : Str := if s.head? == some '+' then s.drop 1 else s
 
